@@ -62,7 +62,7 @@ for i, t in enumerate(TABLE):
     if t.get('has_idx') or t.get('has_stride'):
         # quick: shapes 1 and 3 ; thorough: all four concrete shapes, plus the fully symbolic unit for the stride-only overloads
         for _p in (1, 2, 3, 4):
-            c2 = dict(common); c2['tier'] = common['tier'] if _p in ((1,) if os.environ.get('VF_C17_SURVEY') else (1, 3)) else 'thorough'; c2['timeout'] = 200 if os.environ.get('VF_C17_SURVEY') else 300
+            c2 = dict(common); c2['tier'] = common['tier'] if _p in ((1, 2, 3, 4) if os.environ.get('VF_C17_SURVEY') else (1, 3)) else 'thorough'; c2['timeout'] = 200 if os.environ.get('VF_C17_SURVEY') else 300
             UNITS.append(Unit('%s@shape%d' % (t['uid'], _p), '%s_s%d' % (g, _p), t['uid'], bounded='strides / index lists fixed to concrete shape %d of 4 (all operand values symbolic)' % _p, **c2))
         if not t.get('has_idx'):
             c3 = dict(common); c3['tier'] = 'thorough'; c3['timeout'] = 900
